@@ -33,9 +33,14 @@ type entry struct {
 	Framing    spec.Framing
 	FC         uint8
 	Request    bool
+	// SameAs: the result must equal that of the named entry on the same input (the same entry point reached on an object with a history)
+	SameAs string
 }
 
 var entries []entry
+
+// agedEntries are too slow for the sweeps: generated cases only
+var agedEntries []entry
 var entryByName = map[string]*entry{}
 
 func init() {
@@ -76,8 +81,33 @@ func init() {
 			return fmt.Sprintf("%x", all), nil
 		}},
 	)
+	// the same on an assembler that has been in use for a long time (one server connection that has handled hundreds of requests,
+	// whole and two per read): what it makes of the input must be what a fresh assembler makes of it
+	for _, age := range []int{300, 700, 1100} {
+		age := age
+		agedEntries = append(agedEntries, entry{Name: fmt.Sprintf("ModbusTCPAssembler.ReceiveRead(after %d requests)", age), Framing: spec.TCP, Request: true, SameAs: "ModbusTCPAssembler.ReceiveRead",
+			Fn: func(d []byte) (interface{}, error) {
+				a := &server.ModbusTCPAssembler{Handler: fixedHandler{}}
+				for i := 0; i < age; i++ {
+					fr := spec.EncodeRequest(spec.TCP, spec.Req{FC: 3, Unit: uint8(i), Tx: uint16(i), Addr: uint16(i), Qty: 1 + uint16(i%7)})
+					if i%3 == 2 {
+						// two requests in one read
+						fr = append(fr, spec.EncodeRequest(spec.TCP, spec.Req{FC: 6, Unit: uint8(i + 1), Tx: uint16(i), Addr: 9, Value: uint16(i)})...)
+						i++
+					}
+					if _, closeConn := a.ReceiveRead(context.Background(), fr, len(fr)); closeConn {
+						return nil, fmt.Errorf("harness: the assembler closed the connection after ordinary request %d", i)
+					}
+				}
+				out, closeConn := a.ReceiveRead(context.Background(), d, len(d))
+				return fmt.Sprintf("%x close=%v", out, closeConn), nil
+			}})
+	}
 	for i := range entries {
 		entryByName[entries[i].Name] = &entries[i]
+	}
+	for i := range agedEntries {
+		entryByName[agedEntries[i].Name] = &agedEntries[i]
 	}
 }
 
@@ -166,6 +196,11 @@ func runParse(c parseCase) harness.Result {
 	exact := make([]byte, n)
 	copy(exact, c.Data)
 	o1 := call(e, exact)
+	if e.SameAs != "" && o1.panicked == nil {
+		if ref := call(entryByName[e.SameAs], append([]byte(nil), c.Data...)); ref.panicked == nil && !same(o1, ref) {
+			return harness.Fail("%s on input %x gives (%+v, %s), %s gives (%+v, %s): the result depends on the history of the object", e.Name, []byte(c.Data), o1.val, o1.errRepr, e.SameAs, ref.val, ref.errRepr)
+		}
+	}
 	if o1.panicked != nil {
 		return harness.Fail("%s panicked on %d-byte input %x: %v", e.Name, n, []byte(c.Data), o1.panicked)
 	}
@@ -277,6 +312,9 @@ func fixCRC(f spec.Framing, d []byte) {
 
 func genParse(t *rapid.T) parseCase {
 	e := &entries[rapid.IntRange(0, len(entries)-1).Draw(t, "entry")]
+	if rapid.IntRange(0, 399).Draw(t, "aged_entry") == 0 {
+		e = &agedEntries[rapid.IntRange(0, len(agedEntries)-1).Draw(t, "aged")]
+	}
 	c := genFor(t, e)
 	if rapid.IntRange(0, 3).Draw(t, "with_prev") == 0 {
 		pe := &entries[rapid.IntRange(0, len(entries)-1).Draw(t, "prev_entry")]
